@@ -123,13 +123,20 @@ def run(tier, seed):
           break
     return bad
 
-  def run_warper(name, mk, y, strict, finite_required, infeasible_rule, finite_input_only=False, check_unwarp=False):
+  def run_warper(name, mk, y, strict, finite_required, infeasible_rule, finite_input_only=False, check_unwarp=False, first=None):
+    """first: labels the SAME warper object has warped before (the designers keep one warper and re-warp the grown label set)."""
     y0 = y.copy()
     if finite_input_only and not np.all(np.isfinite(y0)):
       return
     if np.isposinf(y0).any():
       return
     w = mk()
+    if first is not None:
+      try:
+        w.warp(first.copy())
+      except Exception:  # pylint: disable=broad-except
+        return
+      name = name + ' (object re-used after warping other labels)'
     try:
       out = np.asarray(w.warp(y))
     except Exception as e:  # pylint: disable=broad-except
@@ -188,6 +195,16 @@ def run(tier, seed):
       if name in ('HalfRankComponent', 'LogWarperComponent', 'DetectOutliers') and fin.size == 0:
         continue
       run_warper(name, mk, y.copy(), strict, finreq, infr, fonly, unw)
+      if k % 3 == 0 and fin.size >= 2 and name in ('default pipeline', 'outlier pipeline', 'LogWarperComponent', 'HalfRankComponent', 'ZScoreLabels', 'NormalizeLabels'):
+        # the same object first warps the labels WITHOUT the best one (the study before its best trial arrived), then all of them;
+        # and first the labels shrunk towards their median (a second metric on another scale)
+        flat_ = y.flatten()
+        top_ = int(np.nanargmax(np.where(np.isfinite(flat_), flat_, -np.inf)))
+        earlier = np.delete(flat_, top_).reshape(-1, 1)
+        for first_ in (earlier, np.where(np.isfinite(y), np.nanmedian(fin) + (y - np.nanmedian(fin)) * 1e-3, y)):
+          if first_.size and np.isfinite(first_).any():
+            run_warper(name, mk, y.copy(), strict, finreq, infr, fonly, unw, first=first_)
+            rep.count('reused_object_' + name)
     # ---- correspondence inputs (moderate magnitudes only: the exact model has no overflow)
     if kind in ('huge',) or (fin.size and np.abs(fin).max() > 1e15):
       continue
